@@ -5,6 +5,7 @@ Unmarshal as a whole neither panics nor loops on arbitrary bytes is decided on t
 code (mutated responses and raw byte mutations, with recover and a watchdog).
 -/
 import Genq.Model.Types
+import Genq.Model.Codec
 namespace Genq.Types
 
 /-- **C19_bad_typename_is_error** — for every JSON value other than null and every list of
@@ -68,3 +69,58 @@ theorem C19_error_cases :
 example : decodeIface [("Post", "QPost"), ("User", "QUser")] (.obj [("__typename", .str "User"), ("id", .str "1")]) = .impl "User" "QUser" := by decide
 
 end Genq.Types
+
+/-! ### the same on the model of the whole generated decoder (Model/Codec.lean) -/
+namespace Genq.Codec
+open Genq.Types (J)
+
+theorem decImpl_ok : ∀ (impls : Impls) (tn : String) (j : J) (r : Val), decImpl impls tn j = .ok r →
+    ∃ t v, findImpl impls tn = some t ∧ dec t j = .ok v ∧ r = .iface tn v
+  | .nil, _, _, _, h => by simp [decImpl] at h
+  | .cons n t rest, tn, j, r, h => by
+    simp only [decImpl] at h
+    by_cases hn : (n == tn) = true
+    · simp only [hn, if_true] at h
+      cases hd : dec t j with
+      | error e => rw [hd] at h; cases h
+      | ok v =>
+        rw [hd] at h
+        refine ⟨t, v, by simp [findImpl, hn], hd, ?_⟩
+        cases h; rfl
+    · simp only [hn, Bool.false_eq_true, if_false] at h
+      obtain ⟨t', v, h1, h2, h3⟩ := decImpl_ok rest tn j r h
+      exact ⟨t', v, by simp [findImpl, hn, h1], h2, h3⟩
+
+/-- **C19_codec_dispatch_sound** — whatever JSON value the generated decoder is given at an abstract position
+    (any depth of the response type), it yields either nil (for null), an error, or the implementation
+    registered for exactly the `__typename` string the input object carries — decoded by that implementation's
+    own decoder.  No input makes it produce a value of some other implementation. -/
+theorem C19_codec_dispatch_sound (impls : Impls) (j : J) (r : Val) (h : dec (.iface impls) j = .ok r) :
+    (j = .null ∧ r = .nilIface) ∨
+    ∃ o tn t v, j = .obj o ∧ typenameOf o = .ok tn ∧ tn ≠ "" ∧ findImpl impls tn = some t ∧ dec t (.obj o) = .ok v ∧ r = .iface tn v := by
+  cases j with
+  | null => left; simp [dec] at h; exact ⟨rfl, h.symm⟩
+  | obj o =>
+    right
+    simp only [dec] at h
+    cases ht : typenameOf o with
+    | error e => rw [ht] at h; cases h
+    | ok tn =>
+      rw [ht] at h
+      simp only at h
+      by_cases he : (tn == "") = true
+      · simp only [he, if_true] at h; cases h
+      · simp only [he, Bool.false_eq_true, if_false] at h
+        obtain ⟨t, v, h1, h2, h3⟩ := decImpl_ok impls tn _ r h
+        exact ⟨o, tn, t, v, rfl, ht, by simpa using he, h1, h2, h3⟩
+  | bool b => simp [dec] at h
+  | num n => simp [dec] at h
+  | str s => simp [dec] at h
+  | arr xs => simp [dec] at h
+
+/-- the decoder is a total function on (type tree, JSON value): the model has no panic outcome, and the
+    known finding F-02 is visible in it — a null list of abstract elements becomes an EMPTY slice -/
+theorem C19_codec_null_special_list (impls : Impls) : decSpecial (.slice (.iface impls)) .null = .ok (.slice []) := rfl
+
+end Genq.Codec
+
